@@ -8,6 +8,7 @@ VIOLATION. Writes /verif/seeded/MATRIX.tsv and /verif/seeded/expected.json (id -
 used by the must-fail phase of the thorough tier)."""
 import json, os, subprocess, sys, shutil
 
+HEAD_AT_START = ""
 W = os.environ.get("MATRIX_WORKER", "")
 WT = "/var/tmp/scratch/wt-matrix" + W
 OUT = "/var/tmp/scratch/matrix-out" + W
@@ -53,6 +54,8 @@ def main():
     subprocess.run(["git", "-C", "/repo", "worktree", "remove", "--force", WT], capture_output=True)
     subprocess.run(["git", "-C", "/repo", "worktree", "add", "--detach", WT, "HEAD", "-q"], check=True)
     os.makedirs(OUT, exist_ok=True)
+    global HEAD_AT_START
+    HEAD_AT_START = subprocess.run(["git", "-C", WT, "rev-parse", "--short", "HEAD"], capture_output=True, text=True).stdout.strip()
     rows, expected = [], {}
     old = {}
     if os.path.exists("/verif/seeded/expected.json") and len(ids) < 38:
@@ -84,7 +87,7 @@ def main():
         shutil.rmtree(OUT, ignore_errors=True)
     for k, v in old.items():
         expected.setdefault(k, v) if k not in ids else None
-    head = subprocess.run(["git", "-C", "/repo", "rev-parse", "--short", "HEAD"], capture_output=True, text=True).stdout.strip()
+    head = HEAD_AT_START
     if W:
         json.dump({"rows": rows, "expected": expected, "head": head}, open(f"/var/tmp/scratch/matrix-part{W}.json", "w"))
         return
